@@ -1,8 +1,85 @@
-//! remaining queries: conversions, translation, codon tables, serde, macros, derive
+//! remaining queries: symbol tables, conversions, translation, codon tables, serde, macros, derive
 use crate::ast::*;
 use crate::eval::*;
 use crate::hc::HC;
+use bio_seq::prelude::*;
+use std::panic::catch_unwind;
 
-pub fn query<A: HC>(q: &str, _t: &mut Toks) -> R<String> {
-    Err(Fail::BadOp(format!("unknown query {q}")))
+fn osym<A: HC>(f: impl FnOnce() -> Option<A> + std::panic::UnwindSafe) -> String {
+    match catch_unwind(f) {
+        Ok(Some(s)) => format!("{:02x}", s.to_bits()),
+        Ok(None) => "none".into(),
+        Err(_) => "panic".into(),
+    }
+}
+
+/// the symbol whose canonical code is `code`, if any decoder or `items()` can produce it
+pub fn symbol_with_code<A: HC>(code: u8) -> Option<A> {
+    for s in A::items() {
+        if s.to_bits() == code {
+            return Some(s);
+        }
+    }
+    for b in 0..=255u8 {
+        for s in [
+            catch_unwind(move || A::try_from_bits(b)).ok().flatten(),
+            catch_unwind(move || A::unsafe_from_bits(b)).ok(),
+            catch_unwind(move || A::try_from_ascii(b)).ok().flatten(),
+            catch_unwind(move || A::unsafe_from_ascii(b)).ok(),
+        ]
+        .into_iter()
+        .flatten()
+        {
+            if s.to_bits() == code {
+                return Some(s);
+            }
+        }
+    }
+    None
+}
+
+pub fn query<A: HC>(q: &str, t: &mut Toks) -> R<String> {
+    Ok(match q {
+        "sym" => {
+            let b = t.num()? as u8;
+            let sym = symbol_with_code::<A>(b);
+            let ch = sym.map(|s| s.to_char() as u32).unwrap_or(0);
+            let un = |f: fn(A) -> Option<A>, has: bool| -> String {
+                match sym {
+                    Some(s) if has => osym::<A>(move || f(s)),
+                    _ => "none".into(),
+                }
+            };
+            format!(
+                "{} {} {} {} {} {} {} {} {}",
+                A::BITS,
+                osym::<A>(move || A::try_from_bits(b)),
+                osym::<A>(move || Some(A::unsafe_from_bits(b))),
+                osym::<A>(move || A::try_from_ascii(b)),
+                osym::<A>(move || Some(A::unsafe_from_ascii(b))),
+                ch,
+                un(A::sym_comp, A::HAS_COMP),
+                un(A::sym_mask, A::HAS_MASK),
+                un(A::sym_unmask, A::HAS_MASK),
+            )
+        }
+        "items" => {
+            let v: Vec<String> = A::items().map(|s| format!("{:02x}", s.to_bits())).collect();
+            v.concat()
+        }
+        "altcode" => {
+            // known finding D11: content holding a non-canonical (alternative) code
+            let v = eval_v::<A>(&parse_v(t)?)?;
+            let text = v.to_string();
+            let reparsed = Seq::<A>::from_str(&text)?;
+            format!(
+                "{} {} {} {}",
+                content(&v),
+                *v == text.as_str(),
+                v == reparsed,
+                hash_events(&v) == hash_events(&reparsed)
+            )
+        }
+        _ => return Err(Fail::BadOp(format!("unknown query {q}"))),
+    })
 }
